@@ -276,13 +276,35 @@ func (s *state) step(b *ssa.BasicBlock, ii int, in ssa.Instruction) bool {
 		if u.npaths > maxPaths {
 			panic(engineErr("too many paths in " + u.name()))
 		}
-		t := s.clone()
-		t.pc = append(t.pc, c)
-		t.loopBodyHints(b, b.Succs[0])
-		t.exec(b.Succs[0], b, 0)
-		s.pc = append(s.pc, not(c))
-		s.loopBodyHints(b, b.Succs[1])
-		s.exec(b.Succs[1], b, 0)
+		// a branch whose condition is the literal negation of a fact already on the path is
+		// infeasible: not explored (cheap syntactic check, no solver call)
+		nc := not(c)
+		takeThen, takeElse := true, true
+		for _, p := range s.pc {
+			if p == nc {
+				takeThen = false
+			}
+			if p == c {
+				takeElse = false
+			}
+		}
+		if takeThen && takeElse {
+			t := s.clone()
+			t.pc = append(t.pc, c)
+			t.loopBodyHints(b, b.Succs[0])
+			t.exec(b.Succs[0], b, 0)
+			s.pc = append(s.pc, nc)
+			s.loopBodyHints(b, b.Succs[1])
+			s.exec(b.Succs[1], b, 0)
+		} else if takeThen {
+			s.loopBodyHints(b, b.Succs[0])
+			s.exec(b.Succs[0], b, 0)
+		} else if takeElse {
+			s.loopBodyHints(b, b.Succs[1])
+			s.exec(b.Succs[1], b, 0)
+		} else {
+			s.endPath()
+		}
 		return false
 	case *ssa.Jump:
 		s.exec(b.Succs[0], b, 0)
@@ -692,7 +714,7 @@ func (s *state) convert(d *ssa.Convert) Val {
 						isStr = true // (*reflect.StringHeader)(unsafe.Pointer(&str)): stores through it are mapped onto the string (see store)
 					}
 					if !(isNamed(sp.Elem(), "reflect", "SliceHeader")) && !isStr {
-						panic(engineErr(fmt.Sprintf("%s: pointer cast %v -> %v re-types a typed object (not modelled)", u.eng.posStr(d.Pos()), sp, tp)))
+						panic(engineErr(fmt.Sprintf("%s: pointer cast %v -> %v re-types a typed object (not modelled) [ref %.80s]", u.eng.posStr(d.Pos()), sp, tp, x.S[0])))
 					}
 				}
 			}
